@@ -313,12 +313,16 @@ bool KDTree<CoordType, ValueType>::delete_node(Node* n) {
   while (n->before || n->after_or_equal) {
     was_leaf_node = false;
     Node* target;
-    if (n->before) {
-      target = KDTree::find_subtree_min_max(n->before, n->dim, true);
-    } else if (n->after_or_equal) {
+    if (n->after_or_equal) {
       target = KDTree::find_subtree_min_max(n->after_or_equal, n->dim, false);
     } else {
-      throw std::logic_error("node is a leaf but still claims to be movable");
+      // only the before subtree exists. replacing n with the max of that
+      // subtree would leave points that tie with it along n->dim on the
+      // strictly-less side, where at() and erase() can't find them anymore.
+      // so use the min instead, and move the subtree to the other side
+      target = KDTree::find_subtree_min_max(n->before, n->dim, false);
+      n->after_or_equal = n->before;
+      n->before = nullptr;
     }
     n->pt = target->pt;
     n->value = std::move(target->value);
